@@ -26,7 +26,7 @@ def run(ctx):
     rsh = ctx.rule('R-SHAPE', 'Call / Drop finish every job of the detached batch exactly once and lose none (shape '
                    'analysis over list segments, all batch sizes)', minimum=2)
     rcf = ctx.rule('R-CASFRESH', 'every retry of a compare-exchange re-tests the refreshed expected value against the '
-                   'sentinels the first attempt tested', minimum=1)
+                   'sentinels the first attempt tested', minimum=0)
     for cfg, fb in sorted(fbs.items()):
         lib_order.check_cas_fresh(ctx, fb, rcf, lambda f: f.clsq == S)
         lib_shape.check(ctx, fb, rsh, lambda qn: 'Strand' in qn, 2)
